@@ -173,6 +173,13 @@ def refine(body, o, env, depth=0):
             n.a = na
             return n
         return o
+    if k == 'agg':
+        nops = [refine(body, a, env, depth + 1) for a in o.ops]
+        if any(x is not y for x, y in zip(nops, o.ops)):
+            n = Origin('agg', **{a: v for a, v in o.__dict__.items() if a != 'kind'})
+            n.ops = nops
+            return n
+        return o
     if k == 'call':
         nargs = [refine(body, a, env, depth + 1) for a in o.args]
         if any(x is not y for x, y in zip(nargs, o.args)):
@@ -215,7 +222,7 @@ def known_label(o):
 
 
 class Path:
-    __slots__ = ('blocks', 'conds', 'events', 'outcome', 'ret_site', 'kind')
+    __slots__ = ('blocks', 'conds', 'events', 'outcome', 'ret_site', 'kind', 'event_args')
 
     def __init__(self):
         self.blocks = []
@@ -224,6 +231,7 @@ class Path:
         self.outcome = None
         self.ret_site = None
         self.kind = 'return'
+        self.event_args = {}
 
     def cond_map(self):
         m = {}
@@ -250,6 +258,7 @@ def enumerate_paths(body, facts=None, start=0, max_paths=50000, stop_calls=None,
             p.blocks = blocks + [bb]
             p.conds = conds
             p.events = events
+            p.event_args = env.get('__args__', {})
             p.kind = 'loop'
             p.outcome = 'LOOP'
             out.append(p)
@@ -284,6 +293,7 @@ def enumerate_paths(body, facts=None, start=0, max_paths=50000, stop_calls=None,
             p.blocks = blocks
             p.conds = conds
             p.events = events
+            p.event_args = env.get('__args__', {})
             p.ret_site = last0
             if last0 is not None:
                 if last0.is_term:
@@ -308,11 +318,18 @@ def enumerate_paths(body, facts=None, start=0, max_paths=50000, stop_calls=None,
                 if t['dest'][0] == 0:
                     last0 = Site(body, bb)
             events = events + [Site(body, bb)]
+            ea = dict(env.get('__args__', {}))
+            try:
+                ea[bb] = [describe(refine(body, body.origin_of_operand(a), env)) for a in t['args']]
+            except Exception:
+                ea[bb] = None
+            env['__args__'] = ea
             if stop_calls and callee_matches(t, stop_calls):
                 p = Path()
                 p.blocks = blocks
                 p.conds = conds
                 p.events = events
+                p.event_args = env.get('__args__', {})
                 p.kind = 'stop'
                 p.outcome = 'call:' + short(callee_name(t))
                 out.append(p)
@@ -322,6 +339,7 @@ def enumerate_paths(body, facts=None, start=0, max_paths=50000, stop_calls=None,
                 p.blocks = blocks
                 p.conds = conds
                 p.events = events
+                p.event_args = env.get('__args__', {})
                 p.kind = 'diverge'
                 p.outcome = 'diverge:' + short(callee_name(t))
                 out.append(p)
